@@ -188,6 +188,12 @@ def main():
                         (lo if rng.random() < 0.5 else up)[s] += k
                 if j % 7 == 6:
                     lo, up = [x * 2.0 ** -30 for x in lo], [x * 2.0 ** -30 for x in up]
+                if j % 7 == 5 and n <= 4:
+                    # a very large grand-coalition value with narrow intervals: the gap is tiny RELATIVE to v(N)
+                    big = float(2 ** 21 + rng.randrange(1000))
+                    lo = [0.0] + [big * bin(c).count("1") / n // 1 for c in range(1, NC)]
+                    up = [l + w for l, w in zip(lo, [0.0] + [float(rng.choice([0, 0, 1, 2])) for _ in range(NC - 1)])]
+                    up[-1] = lo[-1]
                 traces.append(expl_trace(tid, n, lo, up))
                 if n <= 6 and kind in (0, 2, 4):          # domination: completions inside the box (corners and interior points)
                     lo2 = [min(l, u) for l, u in zip(lo, up)]
